@@ -243,6 +243,13 @@ Section Model.
     end.
 
   Definition default_component (b : builder) (name : string) : builder := set_default b (Some name).
+  (* builder.name = ... / builder.version = ... : public attributes *)
+  Definition set_name (b : builder) (n : option string) : builder :=
+    {| b_name := n; b_version := b_version b; b_nodes := b_nodes b; b_edges := b_edges b;
+       b_aliases := b_aliases b; b_defaults := b_defaults b; b_default := b_default b |}.
+  Definition set_version (b : builder) (v : option string) : builder :=
+    {| b_name := b_name b; b_version := v; b_nodes := b_nodes b; b_edges := b_edges b;
+       b_aliases := b_aliases b; b_defaults := b_defaults b; b_default := b_default b |}.
   Definition clear_inputs (b : builder) (name : string) : builder := set_edges b (dset name [] (b_edges b)).
 
   Inductive op :=
@@ -255,7 +262,9 @@ Section Model.
   | ORemoveAlias (a : string) (exist_ok : bool)
   | ODefaultConn (pname : string) (tg : target)
   | ODefaultComp (name : string)
-  | OClear (name : string).
+  | OClear (name : string)
+  | OSetName (n : option string)
+  | OSetVersion (v : option string).
 
   Definition apply_op (b : builder) (o : op) : builder * option err :=
     match o with
@@ -269,6 +278,8 @@ Section Model.
     | ODefaultConn p tg => default_connection b p tg
     | ODefaultComp n => (default_component b n, None)
     | OClear n => (clear_inputs b n, None)
+    | OSetName n => (set_name b n, None)
+    | OSetVersion v => (set_version b v, None)
     end.
 
   Fixpoint run_ops (b : builder) (ops : list op) : builder * list (option err) :=
@@ -446,6 +457,12 @@ Definition case_build (T : tables) (b : builder) : res config :=
   build (sig_of (t_sig T)) (hash_of (t_hash T)) b.
 Definition case_reload (T : tables) (c : config) : res (config * bool) :=
   reload (sig_of (t_sig T)) (norm_of (t_norm T)) (hash_of (t_hash T)) sdedup c.
+(* PipelineBuilder.from_config(document), one more edit, build *)
+Definition case_reload_edit (T : tables) (c : config) (o : op) : res config :=
+  match from_config (sig_of (t_sig T)) (norm_of (t_norm T)) (hash_of (t_hash T)) sdedup c with
+  | OK (b, _) => case_build T (fst (apply_op (norm_of (t_norm T)) sdedup b o))
+  | Err e => Err e
+  end.
 Definition agree_ops (r : builder * list (option err)) (codes : list nat) : bool :=
   nat_list_eqb (map err_code (snd r)) codes.
 Definition agree_clone (T : tables) (b : builder) (code : nat) (js_ex : string) (warned : bool) : bool :=
